@@ -1,6 +1,7 @@
 SPEC = {
     "lean_modules": ["AM.Props.C19"],
     "theorems": [
+        "AM.Frame.decode_stream", "AM.Frame.le32_decode", "AM.Frame.split_frames_interleave_breaks",
         "AM.Gossip.broadcast_routed_once", "AM.Gossip.broadcast_conservation", "AM.Gossip.oversize_reaches_every_peer",
         "AM.Gossip.busy_takes_nothing", "AM.Gossip.unknown_key_inert", "AM.Gossip.malformed_inert",
         "AM.Gossip.bad_part_does_not_block_others", "AM.Gossip.duplicate_inert", "AM.Gossip.full_state_superset",
@@ -10,6 +11,8 @@ SPEC = {
     "engines": [
         {"name": "gossip", "pkg": "./gossip", "search_cases": 15000},
         {"name": "mesh", "pkg": "./mesh", "search_cases": 6, "timeout_quick": 300, "timeout_thorough": 900},
+        # the TLS gossip transport: concurrent senders on the pooled connection of one peer
+        {"name": "tlsframe", "pkg": "./tlsframe", "search_cases": 200, "timeout_quick": 300},
     ],
     "rule": "gossip: two real cluster delegates (tagged export) over last-writer-wins test states with registries drawn from {sil,nfl},{sil},{nfl},{nfl,sil,xtra}; "
             "NotifyMsg with well-formed parts (known / unknown key, good / rejected payload) and arbitrary bytes; MergeRemoteState with 1-3 parts incl. rejected "
